@@ -287,3 +287,60 @@ Proof.
   unfold support_dispatch, inflation. rewrite !select_found_spec.
   destruct (has_specialized_support t0 && has_specialized_support t1); [discriminate|reflexivity].
 Qed.
+
+(** ** the hypotheses [wf] are satisfiable by the sets of Spec/Shapes.v for which C03 proves the
+    colliders' support functions correct: a sphere is its centre inflated by the radius, a
+    capsule (rigid pose) is its axis segment inflated by the radius *)
+From D3 Require Import Base.RVec2 Spec.Shapes.
+
+Lemma norm_le_iff_sq (v : V3R) (r : R) : 0 <= r -> (norm v <= r <-> dot v v <= r * r).
+Proof.
+  intros Hr. pose proof (norm_nonneg v) as Hn. pose proof (norm_sq v) as Hs. split; intros H.
+  - rewrite <- Hs. nra.
+  - apply Rsqr_incr_0_var; auto. unfold Rsqr. lra.
+Qed.
+
+Definition sphere_coll (c : V3R) (r : R) : coll :=
+  Coll TSphere r (sphere_set c r) (fun x => x = c).
+
+Theorem sphere_coll_wf c r : 0 <= r -> wf (sphere_coll c r).
+Proof.
+  intros Hr. unfold wf, sphere_coll. cbn [ty radius full core is_sphere_or_capsule ctype_eqb orb].
+  split; auto. split; [|discriminate]. intros _ x. rewrite sphere_set_iff. split.
+  - intros H. exists c, (vsub x c). split; auto. split; [apply norm_le_iff_sq; auto|].
+    destruct x, c; vunfold; f_equal; ring.
+  - intros (y & u & -> & Hu & ->).
+    replace (vsub (vadd c u) c) with u by (destruct c, u; vunfold; f_equal; ring).
+    apply norm_le_iff_sq; auto.
+Qed.
+
+Definition segment_K (h : R) : set3 := fun k => exists t, Rabs t <= h / 2 /\ k = V 0 0 t.
+
+Definition capsule_coll (T : Pose R) (r h : R) : coll :=
+  Coll TCapsule r (capsule_set T r h) (image T (segment_K h)).
+
+Lemma mulMV_add (m : M3 R) (a b : V3R) : mulMV m (vadd a b) = vadd (mulMV m a) (mulMV m b).
+Proof. destruct m as [[? ? ?] [? ? ?] [? ? ?]], a, b. vunfold. f_equal; ring. Qed.
+Lemma mulMV_sub (m : M3 R) (a b : V3R) : mulMV m (vsub a b) = vsub (mulMV m a) (mulMV m b).
+Proof. destruct m as [[? ? ?] [? ? ?] [? ? ?]], a, b. vunfold. f_equal; ring. Qed.
+
+Theorem capsule_coll_wf T r h : 0 <= r -> is_rotation (rot T) -> wf (capsule_coll T r h).
+Proof.
+  intros Hr HR. unfold wf, capsule_coll. cbn [ty radius full core is_sphere_or_capsule ctype_eqb orb].
+  split; auto. split; [|discriminate]. intros _ x. unfold capsule_set, image, capsule_K, segment_K. split.
+  - intros (k & (t & Ht & Hk) & ->).
+    exists (transform_point T (V 0 0 t)), (mulMV (rot T) (vsub k (V 0 0 t))). split; [|split].
+    + exists (V 0 0 t). split; auto. exists t. auto.
+    + rewrite is_rotation_norm by auto. apply norm_le_iff_sq; auto.
+    + unfold transform_point. rewrite mulMV_sub.
+      destruct (mulMV (rot T) k), (mulMV (rot T) (V 0 0 t)), (trans T). vunfold. f_equal; ring.
+  - intros (y & u & (k0 & (t & Ht & ->) & ->) & Hu & ->).
+    exists (vadd (V 0 0 t) (mulTV (rot T) u)). split.
+    + exists t. split; auto.
+      replace (vsub (vadd (V 0 0 t) (mulTV (rot T) u)) (V 0 0 t)) with (mulTV (rot T) u)
+        by (destruct (mulTV (rot T) u); vunfold; f_equal; ring).
+      apply norm_le_iff_sq; auto.
+      unfold mulTV. rewrite is_rotation_norm by (apply rotation_transpose; auto). exact Hu.
+    + unfold transform_point. rewrite mulMV_add, rotation_inverse_r by auto.
+      destruct (mulMV (rot T) (V 0 0 t)), u, (trans T). vunfold. f_equal; ring.
+Qed.
